@@ -96,6 +96,11 @@ def cases(tier, rng):
         for i in range(len(good)):
             for r in gaps.low_byte_runes(good[i]):
                 strings.append([ord(c) for c in good[:i]] + [ord(r)] + [ord(c) for c in good[i + 1:]])
+    # near-maximal weighted sums (80 runes, a code-set change at every rune, high symbol values) with EVERY residue
+    # modulo 103: the last control character and the last lower-case character each range over 32 values
+    for a in range(0x00, 0x20, 1 if not quick else 2):
+        for b in range(0x60, 0x80, 1 if not quick else 2):
+            strings.append([0x11, 0x7F] + [0x1F, 0x7F] * 38 + [a, b])
     nrand = 1500 if quick else 100000
     for _ in range(nrand):
         n = rng.choice([1, 2, 3, 4, 5, 6, 7, 8, 9, 10, 12, 16, 20, 40, 79, 80, rng.randrange(1, 81), rng.randrange(1, 81)])
@@ -114,9 +119,13 @@ def cases(tier, rng):
         seen.add(h)
         lines.append("c128 1 " + h)
         lines.append("c128 0 " + h)
-        lines.append("c128idx " + h)
+        if len(s) <= 400:           # the index-list hook has no length limit (and its model is quadratic)
+            lines.append("c128idx " + h)
     # raw byte strings: invalid / non-ASCII UTF-8
     raws = list(SPECIAL_BYTES)
+    import gaps as _g
+    for g in _g.family(rng, tier, ("c128", "c128n"), maxlen=1500):
+        raws.append(b"" if g.split(" ")[1] == "-" else bytes.fromhex(g.split(" ")[1]))
     for _ in range(150 if quick else 5000):
         n = rng.randrange(1, 12)
         raws.append(bytes(rng.choice([rng.randrange(256), rng.randrange(0x80, 0x100), rng.randrange(0x30, 0x3A),
